@@ -33,7 +33,9 @@ def main(argv=None) -> int:
     except ValueError:
         seed = 1
     t0 = time.time()
-    env.enter_scratch()
+    os.environ.setdefault("VF_SHRINK_BUDGET_S", "15" if args.tier == "quick" else "90")
+    scratch = env.enter_scratch()
+    os.environ["VF_SCRATCH_BASE"] = str(scratch)  # worker scratch dirs live inside ours and vanish with it
     try:
         env.import_leaspy()
         from vf.core import harness
